@@ -1,5 +1,5 @@
 ----------------------------- MODULE MC_Reject -----------------------------
 EXTENDS Reject, Json
 Terminal == phase # "declaring"
-Emit == Terminal => PrintT(<< "BEH", ToJson([world |-> world, decls |-> decls, final |-> phase]) >>)
+Emit == Terminal => PrintT(<< "BEH", ToJson([world |-> world, opts |-> opts, decls |-> decls, final |-> phase]) >>)
 =============================================================================
